@@ -124,6 +124,7 @@ def _check_model(net, bounds, P, stats, origin=None):
                     continue
             c = np.array([obj.get(r, 0) for r in ids], dtype=float)
             starts = [("own", None)] + [("vertex%d" % k, x) for k, x in enumerate(start_vectors(fba, z))]
+            starts += [(n + "_reordered", x) for n, x in starts[1:2]]
             for sname, w in starts:
                 case = {"net": [list(x) for x in net], "bounds": [[_j(a), _j(b)] for a, b in bounds],
                         "objective": oid, "direction": direction, "start": sname, "fn": "loopless_solution"}
@@ -143,7 +144,11 @@ def _check_model(net, bounds, P, stats, origin=None):
                             sol = loopless_solution(model)
                         else:
                             wv = np.array([float(v) for v in w])
-                            sol = loopless_solution(model, fluxes={r: float(v) for r, v in zip(ids, w)})
+                            fl = {r: float(v) for r, v in zip(ids, w)}
+                            if sname.endswith("_reordered"):
+                                # the same starting vector listed in another reaction order
+                                fl = dict(reversed(list(fl.items())))
+                            sol = loopless_solution(model, fluxes=fl)
                 except Exception as exc:
                     bad("raised", repr(exc))
                     continue
